@@ -104,9 +104,10 @@ class PhaseField(_Simu):
         super().__init__(mesh, model, folder, verbosity)
 
         # Init internal variable
-        self.__psiP_e_pg: FeArray.FeArrayALike = np.empty(0, dtype=float)
-        # old positive elastic energy density psiPlus(e, pg, 1) to use the miehe history field
-        self.__old_psiP_e_pg: FeArray.FeArrayALike = np.empty(0, dtype=float)
+        # positive elastic energy density psiPlus(e, pg) of each group of elements
+        self.__psiP_e_pg: dict["_GroupElem", FeArray.FeArrayALike] = {}
+        # old positive elastic energy density psiPlus(e, pg) of each group to use the miehe history field
+        self.__old_psiP_e_pg: dict["_GroupElem", FeArray.FeArrayALike] = {}
 
         self.Need_Update()
 
@@ -282,8 +283,8 @@ class PhaseField(_Simu):
     def mesh(self, mesh: Mesh):
         _Simu.mesh.fset(self, mesh)  # type: ignore [attr-defined]
         # the energies computed on the previous mesh are not a history of this one
-        self.__psiP_e_pg = np.empty(0, dtype=float)
-        self.__old_psiP_e_pg = np.empty(0, dtype=float)
+        self.__psiP_e_pg = {}
+        self.__old_psiP_e_pg = {}
 
     def _Update(self, observable: Observable, event: str) -> None:
         if isinstance(observable, _IModel):
@@ -532,10 +533,10 @@ class PhaseField(_Simu):
 
         if phaseFieldModel.solver == "History":
             # Get the old history field
-            old_psiPlus_e_pg = self.__old_psiP_e_pg.copy()  # type: ignore [union-attr]
+            old_psiPlus_e_pg = self.__old_psiP_e_pg.get(groupElem)
 
-            if isinstance(old_psiPlus_e_pg, list) and len(old_psiPlus_e_pg) == 0:
-                # No damage available yet
+            if old_psiPlus_e_pg is None:
+                # No history available yet for this group
                 old_psiPlus_e_pg = np.zeros_like(psiP_e_pg)
 
             if old_psiPlus_e_pg.shape != psiP_e_pg.shape:
@@ -553,9 +554,9 @@ class PhaseField(_Simu):
             # old = np.linalg.norm(self.__old_psiP_e_pg)
             # assert new >= old, "Error"
 
-        self.__psiP_e_pg = FeArray.asfearray(psiP_e_pg)
+        self.__psiP_e_pg[groupElem] = FeArray.asfearray(psiP_e_pg)
 
-        return self.__psiP_e_pg
+        return self.__psiP_e_pg[groupElem]
 
     def __Construct_Damage_Matrix(self):
 
@@ -642,7 +643,7 @@ class PhaseField(_Simu):
 
         if self.phaseFieldModel.solver == self.phaseFieldModel.SolverType.History:
             # update old history field for next resolution
-            self.__old_psiP_e_pg = self.__psiP_e_pg
+            self.__old_psiP_e_pg = dict(self.__psiP_e_pg)
 
         iter["displacement"] = self.displacement
         iter["damage"] = self.damage
@@ -670,9 +671,12 @@ class PhaseField(_Simu):
             and self.phaseFieldModel.solver == self.phaseFieldModel.SolverType.History
         ):
             # It's really useful to do this otherwise when we calculate psiP there will be a problem
-            self.__old_psiP_e_pg = FeArray.zeros(*self.__old_psiP_e_pg.shape)
+            self.__old_psiP_e_pg = {}
             # update psi+ with the current state
-            self.__old_psiP_e_pg = self.__Calc_psiPlus_e_pg(self.mesh.groupElem)
+            self.__old_psiP_e_pg = {
+                groupElem: self.__Calc_psiPlus_e_pg(groupElem)
+                for groupElem in self.mesh.Get_list_groupElem()
+            }
 
         return results
 
